@@ -194,6 +194,38 @@ class _Renamer(ast.NodeTransformer):
         return node
 
 
+def _spread_tuple_stars(fn):
+    """f(*t) where t is bound once, to a tuple display of never-rebound names / constants, is f(a, b, c)"""
+    stores: Dict[str, int] = {}
+    tuples: Dict[str, ast.Tuple] = {}
+    for n in ast.walk(fn):
+        if isinstance(n, ast.Name) and isinstance(n.ctx, (ast.Store, ast.Del)):
+            stores[n.id] = stores.get(n.id, 0) + 1
+        elif isinstance(n, (ast.For, ast.AsyncFor, ast.comprehension)):
+            pass
+    for n in ast.walk(fn):
+        if isinstance(n, ast.Assign) and len(n.targets) == 1 and isinstance(n.targets[0], ast.Name) and isinstance(n.value, ast.Tuple):
+            tuples[n.targets[0].id] = n.value
+    params = {a.arg for a in fn.args.args + fn.args.kwonlyargs + fn.args.posonlyargs}
+    ok = {}
+    for name, tup in tuples.items():
+        if stores.get(name, 0) != 1 or name in params:
+            continue
+        if all((isinstance(e, ast.Name) and stores.get(e.id, 0) == 0) or isinstance(e, ast.Constant) for e in tup.elts):
+            ok[name] = tup
+    if not ok:
+        return
+    for n in ast.walk(fn):
+        if isinstance(n, ast.Call) and any(isinstance(x, ast.Starred) and isinstance(x.value, ast.Name) and x.value.id in ok for x in n.args):
+            new_args = []
+            for x in n.args:
+                if isinstance(x, ast.Starred) and isinstance(x.value, ast.Name) and x.value.id in ok:
+                    new_args.extend(copy.deepcopy(e) for e in ok[x.value.id].elts)
+                else:
+                    new_args.append(x)
+            n.args = new_args
+
+
 class _SubstName(ast.NodeTransformer):
     """replace loads of a name by a (constant) expression"""
     def __init__(self, mapping):
@@ -235,6 +267,7 @@ class Normalizer:
     # ------------------------------------------------------------------ entry
     def run(self, fn: ast.FunctionDef) -> ast.FunctionDef:
         new = copy.deepcopy(fn)
+        _spread_tuple_stars(new)
         new.body = self._block(new.body, self.cls, self.depth)
         ast.fix_missing_locations(new)
         return new
@@ -248,6 +281,14 @@ class Normalizer:
 
     def _stmt(self, st, cls, depth) -> List[ast.stmt]:
         pre: List[ast.stmt] = []
+        # a test that is a literal constant (a mode flag of an inlined helper): only the live arm remains
+        if isinstance(st, ast.If):
+            t, neg_ = st.test, False
+            while isinstance(t, ast.UnaryOp) and isinstance(t.op, ast.Not):
+                t, neg_ = t.operand, not neg_
+            if isinstance(t, ast.Constant) and isinstance(t.value, (bool, type(None))):
+                live = st.body if (bool(t.value) != neg_) else st.orelse
+                return self._block(live, cls, depth)
         # idiom: `x[:0] = [a, b]` / `x[0:0] = [a]` is x.insert(0, ...) (front insertion by slice assignment)
         if isinstance(st, ast.Assign) and len(st.targets) == 1 and isinstance(st.targets[0], ast.Subscript) \
                 and isinstance(st.targets[0].slice, ast.Slice) and isinstance(st.value, ast.List) and 0 < len(st.value.elts) <= 4 \
@@ -446,6 +487,12 @@ class Normalizer:
         binds = [(pn, v) for pn, v in binds if pn not in direct]
         ren = _Renamer(mapping)
         body = [ren.visit(s) for s in body]
+        # a parameter bound to a constant that the helper never rebinds is that constant (mode flags: `undo=False`)
+        consts = {mapping.get(pn, pn): v for pn, v in binds if isinstance(v, ast.Constant) and pn not in rebound}
+        if consts:
+            sub = _SubstName(consts)
+            body = [sub.visit(s) for s in body]
+            binds = [(pn, v) for pn, v in binds if mapping.get(pn, pn) not in consts]
         marker = ast.Expr(value=ast.Call(func=ast.Name(id=MARKER, ctx=ast.Load()),
                                          args=[ast.Constant(value=qual)], keywords=[]))
         ast.copy_location(marker, at_stmt)
@@ -566,6 +613,89 @@ class Normalizer:
 
 # ---------------------------------------------------------------------- resolver over the Repo model
 
+_FIELD_CLASS_CACHE: Dict[tuple, object] = {}
+
+
+def _field_class(repo, cls, field: str):
+    key = (id(repo), cls.name, field)
+    if key in _FIELD_CLASS_CACHE:
+        return _FIELD_CLASS_CACHE[key]
+    found = set()
+    other = False
+    for k in repo.mro(cls):
+        for fn in k.methods.values():
+            for n in ast.walk(fn):
+                if isinstance(n, ast.Assign):
+                    for t in n.targets:
+                        if isinstance(t, ast.Attribute) and isinstance(t.value, ast.Name) and t.value.id == "self" and t.attr == field:
+                            v = n.value
+                            nm = A.dotted(v.func).split(".")[-1] if isinstance(v, ast.Call) and A.dotted(v.func) else None
+                            if nm and nm in repo.classes:
+                                found.add(nm)
+                            else:
+                                other = True
+    res = repo.classes[next(iter(found))] if (len(found) == 1 and not other) else None
+    if res is None and not found and not other:
+        res = _property_class(repo, cls, field)
+    _FIELD_CLASS_CACHE[key] = res
+    return res
+
+
+def _class_of_expr(repo, e, fn):
+    """class constructed by expression e (a constructor call, or a local bound once to one) inside function fn"""
+    if isinstance(e, ast.Call) and A.dotted(e.func) and A.dotted(e.func).split(".")[-1] in repo.classes:
+        return repo.classes[A.dotted(e.func).split(".")[-1]]
+    if isinstance(e, ast.Name):
+        vals = [n.value for n in ast.walk(fn) if isinstance(n, ast.Assign) and any(isinstance(t, ast.Name) and t.id == e.id for t in n.targets)]
+        if len(vals) == 1:
+            return _class_of_expr(repo, vals[0], fn) if not isinstance(vals[0], ast.Name) else None
+    return None
+
+
+def _property_class(repo, cls, field: str):
+    """property `field` that returns self.A.B: B is set by A's constructor from an argument whose class is known"""
+    r = repo.lookup(cls, field)
+    if r is None or field not in r[0].properties:
+        return None
+    body = A.strip_docstring(r[1].body)
+    if not (len(body) == 1 and isinstance(body[0], ast.Return)):
+        return None
+    e = body[0].value
+    if not (isinstance(e, ast.Attribute) and isinstance(e.value, ast.Attribute) and isinstance(e.value.value, ast.Name) and e.value.value.id == "self"):
+        return None
+    a_name, b_name = e.value.attr, e.attr
+    ka = _field_class(repo, cls, a_name)
+    if ka is None:
+        return None
+    init = repo.lookup(ka, "__init__")
+    if init is None:
+        return None
+    params = [p.arg for p in init[1].args.args][1:]
+    src_param = None
+    for n in ast.walk(init[1]):
+        if isinstance(n, ast.Assign) and isinstance(n.value, ast.Name) and n.value.id in params:
+            for t in n.targets:
+                if isinstance(t, ast.Attribute) and isinstance(t.value, ast.Name) and t.value.id == "self" and t.attr == b_name:
+                    src_param = n.value.id
+    if src_param is None:
+        return None
+    found = set()
+    for k in repo.mro(cls):
+        for fn in k.methods.values():
+            for n in ast.walk(fn):
+                if isinstance(n, ast.Assign) and isinstance(n.value, ast.Call) and any(
+                        isinstance(t, ast.Attribute) and isinstance(t.value, ast.Name) and t.value.id == "self" and t.attr == a_name for t in n.targets):
+                    c = n.value
+                    arg = next((kw.value for kw in c.keywords if kw.arg == src_param), None)
+                    if arg is None and params.index(src_param) < len(c.args):
+                        arg = c.args[params.index(src_param)]
+                    kc = _class_of_expr(repo, arg, fn) if arg is not None else None
+                    found.add(kc.name if kc is not None else None)
+    if len(found) == 1 and None not in found:
+        return repo.classes[next(iter(found))]
+    return None
+
+
 def make_resolver(repo, module, private_only: bool = True, also: Optional[Set[str]] = None):
     """Resolve `self.m(...)` through the class hierarchy and bare `f(...)` to module functions.
 
@@ -607,6 +737,28 @@ def make_resolver(repo, module, private_only: bool = True, also: Optional[Set[st
             if not fn.args.args or fn.args.args[0].arg != "self":
                 return None
             return f"{k.name}.{fn.name}", fn, cls, True
+        if isinstance(f, ast.Attribute) and isinstance(f.value, ast.Attribute) and isinstance(f.value.value, ast.Name) \
+                and f.value.value.id == "self" and cls is not None and wanted(f.attr):
+            # self.<field>.<helper>(...): the field's class is known when every assignment to it constructs the same class
+            k = _field_class(repo, cls, f.value.attr)
+            if k is None:
+                return None
+            r = repo.lookup(k, f.attr)
+            if r is None:
+                return None
+            k2, fn = r
+            if f.attr in k2.properties:
+                return None
+            for sub in repo.subclasses(k.name):
+                if sub is not k and f.attr in sub.methods and sub.methods[f.attr] is not fn:
+                    return None
+            body = A.strip_docstring(fn.body)
+            if len(body) == 1 and isinstance(body[0], ast.Raise):
+                return None
+            decs = [A.dotted(d) or "" for d in fn.decorator_list]
+            if decs or not fn.args.args or fn.args.args[0].arg != "self":
+                return None
+            return f"{k2.name}.{fn.name}", fn, k, False     # False: the receiver is bound to the helper's `self`
         if isinstance(f, ast.Name):
             mod = module
             if not wanted(f.id):
